@@ -2,37 +2,82 @@ package c16
 
 import (
 	"context"
+	"encoding/hex"
 	"fmt"
+	"strings"
 	"testing"
 	"time"
 
-	"github.com/google/gce-tcb-verifier/extract/extractsev"
 	"github.com/google/gce-tcb-verifier/gcetcbendorsement"
+	epb "github.com/google/gce-tcb-verifier/proto/endorsement"
 	"github.com/google/gce-tcb-verifier/sev"
 	"github.com/google/gce-tcb-verifier/verify"
+	"google.golang.org/protobuf/proto"
 	"pgregory.net/rapid"
 
 	"verif/internal/attest"
 	"verif/internal/ev"
 )
 
-type urlLog struct{ urls []string }
+// urlLog is the validators' getter double: it records every request and answers with a 404, with an
+// empty body or with bytes that are no endorsement.
+type urlLog struct {
+	mode string // 404 | empty | junk
+	urls []string
+}
 
 func (g *urlLog) Get(u string) ([]byte, error) {
 	g.urls = append(g.urls, u)
+	switch g.mode {
+	case "empty":
+		return []byte{}, nil
+	case "junk":
+		return []byte("this is not a VMLaunchEndorsement"), nil
+	}
 	return nil, fmt.Errorf("404")
+}
+
+var validatorFamilies = []string{
+	sev.GCEUefiFamilyID,
+	"11111111-2222-3333-4444-555555555555",
+	sev.GCEFwCertGUID,
+	"",
+	"00000000-0000-0000-0000-000000000000",
 }
 
 // The validators fetch too (when no endorsement is at hand): the same network discipline applies.
 func TestValidatorsFetchOnlyForFullLengthMeasurements(t *testing.T) {
 	const name = "sources/validators"
-	ev.Rule(name, "the SNP validator closure (verify.SNPValidateFunc / SNPFamilyValidateFunc) and gcetcbendorsement.SevValidate with a recording getter and no endorsement at hand, over report measurements of length {0,1,16,32,47,48,49,64,96} with drawn content; oracle (I1): every requested URL is exactly GCETcbURL(GCETcbObjectName(family, M)) for the 48-byte measurement M of that report - no request at all for any other length; non-trivial = length != 48; distinct = (entry, length)")
+	ev.Rule(name, "the SNP validator closure (verify.SNPValidateFunc, and verify.SNPFamilyValidateFunc with the family id drawn from {GCE family id, GCE cert GUID, foreign, empty, zero}) and gcetcbendorsement.SevValidate with a recording getter (answering 404 / an empty body / junk) and no endorsement supplied, over report measurements of length {0,1,16,32,47,48,49,64,96} with drawn content (zero / 0xff / random); a third of the SevValidate cases carry a parseable GCE certificate-table entry. Oracle (I1): no request at all for a measurement that is not 48 bytes long, whatever the family id; for a 48-byte measurement M every requested URL is bucket+ovmf_x64_csm/sevsnp/hex(M).binarypb (GCE family ids; computed by the harness) or, for a foreign family id, a bucket URL that ends in /sevsnp/hex(M).binarypb; (I2) no request when the attestation carries a certificate-table entry that parses. non-trivial = length != 48, a foreign family id or an entry at hand; distinct = (entry point, family class, length, getter answer, content kind, entry at hand)")
+	checks(ev.Scale(1200, 19200))
 	rapid.Check(t, func(rt *rapid.T) {
-		n := rapid.SampledFrom([]int{0, 1, 16, 32, 47, 48, 48, 49, 64, 96}).Draw(rt, "len")
-		meas := rapid.SliceOfN(rapid.Byte(), n, n).Draw(rt, "meas")
-		entry := rapid.SampledFrom([]string{"closure", "closure/family", "SevValidate"}).Draw(rt, "entry")
-		g := &urlLog{}
-		at := attest.SnpAttestation(make([]byte, 48), nil)
+		n := rapid.SampledFrom([]int{32, 48, 0, 1, 47, 49, 48, 16, 64, 96}).Draw(rt, "len")
+		fill := rapid.SampledFrom([]string{"random", "zero", "ff"}).Draw(rt, "fill")
+		meas := make([]byte, n)
+		switch fill {
+		case "random":
+			meas = rapid.SliceOfN(rapid.Byte(), n, n).Draw(rt, "meas")
+		case "ff":
+			for i := range meas {
+				meas[i] = 0xff
+			}
+		}
+		entry := rapid.SampledFrom([]string{"closure/family", "SevValidate", "closure"}).Draw(rt, "entry")
+		family := sev.GCEUefiFamilyID
+		if entry == "closure/family" {
+			family = rapid.SampledFrom(validatorFamilies).Draw(rt, "family")
+		}
+		g := &urlLog{mode: rapid.SampledFrom([]string{"404", "junk", "empty"}).Draw(rt, "getterAnswer")}
+		var extras map[string][]byte
+		atHand := entry == "SevValidate" && rapid.IntRange(0, 2).Draw(rt, "entryAtHand") == 0
+		if atHand {
+			blob, err := proto.Marshal(&epb.VMLaunchEndorsement{SerializedUefiGolden: []byte{0x08, 0x01}, Signature: []byte("sig")})
+			if err != nil {
+				rt.Fatalf("harness: %v", err)
+			}
+			extras = map[string][]byte{sev.GCEFwCertGUID: blob}
+		}
+		at := attest.SnpAttestation(make([]byte, 48), extras)
 		at.Report.Measurement = meas
 		var pan any
 		func() {
@@ -45,28 +90,50 @@ func TestValidatorsFetchOnlyForFullLengthMeasurements(t *testing.T) {
 			case "closure":
 				verify.SNPValidateFunc(&verify.Options{Getter: g, Now: time.Unix(1, 0)})(at, nil)
 			case "closure/family":
-				verify.SNPFamilyValidateFunc(sev.GCEUefiFamilyID, &verify.Options{Getter: g, SNP: &verify.SNPOptions{ExpectedLaunchVMSAs: 2}})(at, nil)
+				verify.SNPFamilyValidateFunc(family, &verify.Options{Getter: g, SNP: &verify.SNPOptions{ExpectedLaunchVMSAs: 2}})(at, nil)
 			default:
 				gcetcbendorsement.SevValidate(context.Background(), at, &gcetcbendorsement.SevValidateOptions{Getter: g, Now: time.Unix(1, 0)})
 			}
 		}()
+		famClass := "gce"
+		if !isGCEFamily(family) {
+			famClass = "foreign"
+		}
+		class := entry + "/" + famClass
+		if atHand {
+			class += "/entry-at-hand"
+		}
 		if pan != nil {
 			ev.Note("panic in %s with a %d-byte measurement (totality is C07's subject): %v", entry, n, pan)
+			ev.Class(name, "inconclusive/panic")
 			return
 		}
-		want := verify.GCETcbURL(extractsev.GCETcbObjectName(sev.GCEUefiFamilyID, meas))
 		for _, u := range g.urls {
-			if n != 48 {
-				ev.Violation(rt, "C16/I1/short-measurement-fetch", "%s issued GET %s for a report whose measurement has %d bytes", entry, u, n)
+			if atHand {
+				ev.Violation(rt, "C16/I2/network-used-despite-local-evidence", "SevValidate issued GET %s although the attestation's certificate table carries a parseable GCE entry", u)
 				return
 			}
-			if u != want {
-				ev.Violation(rt, "C16/I1/unrelated-url", "%s issued GET %s, the measurement's object is %s", entry, u, want)
+			if n != fullLength {
+				ev.Violation(rt, "C16/I1/short-measurement-fetch", "%s (family id %q) issued GET %s for a report whose measurement has %d bytes", entry, family, u, n)
+				return
+			}
+			if famClass == "gce" {
+				if want := refURL("sevsnp", meas); u != want {
+					ev.Violation(rt, "C16/I1/unrelated-url", "%s issued GET %s, the measurement's object is %s", entry, u, want)
+					return
+				}
+			} else if !strings.HasPrefix(u, bucketURL) || !strings.HasSuffix(u, "/sevsnp/"+hex.EncodeToString(meas)+".binarypb") {
+				ev.Violation(rt, "C16/I1/unrelated-url", "%s (family id %q) issued GET %s, which is not a bucket object named after the report's measurement %x", entry, family, u, meas)
 				return
 			}
 		}
-		ev.Case(name, n != 48, fmt.Sprintf("%s/%d", entry, n), entry, func() any {
-			return map[string]any{"entry": entry, "measurement_bytes": n, "requests": g.urls}
+		if len(g.urls) > 0 {
+			ev.Class(name, "requested")
+		} else {
+			ev.Class(name, "no-request")
+		}
+		ev.Case(name, n != fullLength || famClass != "gce" || atHand, fmt.Sprintf("%s/%d/%s/%s/%v", class, n, g.mode, fill, atHand), class, func() any {
+			return map[string]any{"entry": entry, "family": family, "measurement_bytes": n, "getter": g.mode, "entry_at_hand": atHand, "requests": g.urls}
 		})
 	})
 }
